@@ -84,17 +84,23 @@ def specRedirectDelivery (inflate : Bytes → Option Bytes) (payload msg : Bytes
   unravelRedirect inflate payload == some msg
 
 /-- Redirect: the receiver's parameters are the destination's own followed by the SAML parameter
-    (whose value delivers `msg`) and RelayState (iff given, with the given value). -/
+    (whose value delivers `msg`) and RelayState (iff given, with the given value).  An empty
+    artifact is not a message (`parse_qsl` drops blank values): unconstrained. -/
 def specRedirect (inflate : Bytes → Option Bytes) (typ msg loc rs url : Bytes) : Bool :=
   let ps := parseQsl (queryOf url)
   let own := parseQsl (queryOf loc)
-  ps.take own.length == own &&
+  (typ == sSAMLart && msg.isEmpty) ||
+  (ps.take own.length == own &&
   (match ps.drop own.length with
    | [(k, v)] => rs.isEmpty && k == typ &&
       (if typ = sSAMLart then v == msg else specRedirectDelivery inflate v msg)
    | [(k, v), (k2, v2)] => !rs.isEmpty && k == typ &&
       (if typ = sSAMLart then v == msg else specRedirectDelivery inflate v msg) && k2 == sRelayState && v2 == rs
-   | _ => false)
+   | _ => false))
+
+/-- The artifact URL of `use_http_artifact`; an empty artifact is unconstrained. -/
+def specArtifactUrl (art loc rs url : Bytes) : Bool :=
+  art.isEmpty || specUrl loc (withRelay (sSAMLart, art) rs) url
 
 /-! ### SOAP -/
 
